@@ -1,10 +1,26 @@
 (* C14 -- Multistage RAM/disk split changes only labels and minimises disk traffic
    Property theorems only: each proof is one application of a lemma proved in Proofs/, followed by Print Assumptions. *)
 From Coq Require Import ZArith List Bool.
-From CS Require TopK AllocProofs.
+From CS Require TopK AllocProofs SplitProofs.
 From CS Require Import Actions NAdvance Multistage Exec Sched RunFacts Projections BasicInv MultistageRun TLBridge MixBridge.
 Import ListNotations.
 Open Scope Z_scope.
+
+(* first clause: two Multistage configurations with the same max_n, trajectory and number of labels produce the same stream up to the storage named in checkpoint actions (erase_out forgets RAM/DISK), from every state and for every number of requests *)
+Module M_C14_labels_only.
+Import SplitProofs.
+Theorem C14_labels_only :
+  forall c1 c2 : Multistage.cfg,
+         Multistage.max_n c1 = Multistage.max_n c2 ->
+         Multistage.tr c1 = Multistage.tr c2 ->
+         length (Multistage.labels c1) = length (Multistage.labels c2) ->
+         Forall (fun l : Actions.storage => l = Actions.RAM \/ l = Actions.DISK) (Multistage.labels c1) ->
+         Forall (fun l : Actions.storage => l = Actions.RAM \/ l = Actions.DISK) (Multistage.labels c2) ->
+         forall (fuel : nat) (s : Multistage.st),
+         map erase_out (Multistage.run fuel c1 s) = map erase_out (Multistage.run fuel c2 s).
+Proof. exact (@SplitProofs.C14_labels_only). Qed.
+Print Assumptions C14_labels_only.
+End M_C14_labels_only.
 
 (* the labels of a constructed Multistage schedule: all RAM or DISK, min(ram+disk, N-1) of them, at most min(ram, N-1) RAM and at most min(disk, N-1) DISK *)
 Module M_C14_construct_labels.
